@@ -11,7 +11,7 @@ from .common import Check, cmat, fmt_ints, fmt_matrix, kv
 THEOREMS = [
     "Tsplib.walker_full", "Tsplib.walker_upperRow", "Tsplib.walker_lowerDiag", "Tsplib.walker_upperDiag",
     "Tsplib.explicit_formats_agree", "Tsplib.section_load", "Tsplib.wrapping_irrelevant", "Tsplib.explicit_section_loads",
-    "Tsplib.blank_lines_ignored", "Tsplib.tokeniser_roundtrip", "Tsplib.accepted_entries_readable",
+    "Tsplib.blank_lines_ignored", "Tsplib.tokeniser_roundtrip", "Tsplib.mkInstance_facts", "Tsplib.accepted_entries_readable",
     "Tsplib.write_read_roundtrip", "Tsplib.write_read_same_instance", "Tsplib.tour_parser_perm",
     "Tsplib.nint_unique", "Tsplib.ceil_unique", "Tsplib.att_is_ceil",
 ]
